@@ -4,24 +4,22 @@ C01 for PM stage 2c (multi-column containers, `Model/PaginateCol.lean`).
 1. `embed_agrees`: on documents without containers the extended model *is* stage 1 — every stage-1 theorem
    (C01.segment, C01.pages_conserve, C03.page_progress, C02.paginate_terminates, C03Geo.paginate_line_fits, C04 …)
    holds for the stage-1 fragment of the extended grammar (`pages_conserve_embedded` shows the transfer).
-2. Conservation for the extended grammar: `segment_partial` (every `block_level_layout` call, including a
-   container: the lines of the fragment followed by the lines the resume position designates are the lines from
-   the skip position) and `pages_conserve_partial` (the pages of `make_all_pages`, concatenated, show every line
-   of the document exactly once, in order), for ALL documents with any number of columns, `column-fill`
-   balance or auto, a definite container height or not, any nesting / geometry / break values — under the
-   excluding hypotheses `NoFixedHeight` (blocks and paragraphs; known finding `fixed-height-forgets-overflow`)
-   and `NoSpan` (no `column-span: all` child).
-   Status of `NoSpan` after the repair b24b457 (`column-span-loses-following-content`,
-   `column-group-dropped-span-duplicated`): the two refutations are gone (`Witness/C01Col.lean` now holds the
-   regression theorems `span_keeps_following_content`, `group_resumed_span_once` on the same documents), and the
-   model agrees with the repaired code on every generated document with spanning paragraphs / childless spanning
-   blocks.  The hypothesis stays for two reasons: (1) it is still *needed* for spanning blocks with block children
-   (open finding `column-span-block-resume-mislevelled`: their resume position is stored one level too high,
-   corpus/C01/colspan_block_resume_lost.json); (2) for spanning paragraphs the loop invariant over
-   `columns_and_blocks` (several groups, each column box ending at the next span) is not proved yet — the theorems
-   keep their `_partial` names for that reason, not because a counterexample is known.
+2. Conservation for the extended grammar: `segment` (every `block_level_layout` call, including a container:
+   the lines of the fragment followed by the lines the resume position designates are the lines from the skip
+   position) and `pages_conserve` (the pages of `make_all_pages`, concatenated, show every line of the document
+   exactly once, in order), for ALL documents with any number of columns, `column-fill` balance or auto, a
+   definite container height or not, ANY `column-span: all` children (paragraphs, blocks with children), any
+   nesting / geometry / break values.  The only excluding hypothesis left is `NoFixedHeight` (blocks and
+   paragraphs; known finding `fixed-height-forgets-overflow`); `WellFormed` is `orphans, widows ≥ 1` (what the
+   validator enforces).
+   The former hypothesis `NoSpan` is gone: the two defects it excluded were repaired by b24b457, the mis-levelled
+   resume position of spanning blocks by d7e3d63 (`Witness/C01Col.lean` holds the regression theorems on the former
+   counterexamples).  The proof is the loop invariant over `columns_and_blocks` (`Lemmas/ColSegBlock.colsLoop_spec`:
+   spanning children one by one, groups of columns each ending at the next spanning child —
+   `layoutKids_take`).
 3. `find_earlier_skips_container`: `find_earlier_page_break` never looks into a container (repair 3162604), so
    no resume position is ever built from the index-less children of a container.
+4. `span_resume_roundtrip`: the resume position of a spanning child is stored at its own level.
 -/
 import WpModel.Lemmas.ColEmbed
 import WpModel.Lemmas.ColSegPages
@@ -87,34 +85,34 @@ theorem pages_conserve_embedded (d : PM.Doc) (hN : PM.NoFixedHeight d.root) (hW 
 
 /-! ### conservation for the extended grammar -/
 
-/-- **Segment theorem, extended grammar.** For every box (paragraph, block, multi-column container, nested
-anyhow) without fixed heights on blocks / paragraphs, with `orphans, widows ≥ 1` and without spanning children,
+/-- **Segment theorem, extended grammar.** For every box (paragraph, block, multi-column container with or
+without spanning children, nested anyhow) without fixed heights on blocks / paragraphs and with `orphans, widows ≥ 1`,
 every layout call that returns a fragment satisfies: lines(fragment) ++ lines(rest designated by the resume
 position) = lines(box from the skip position). -/
-theorem segment_partial (box : ColBox) (hN : NoFixedHeight box) (hW : WellFormed box) (hS : NoSpan box)
+theorem segment (box : ColBox) (hN : NoFixedHeight box) (hW : WellFormed box)
     (c : CCtx) (idx : Nat) (y bs : Rat) (skip : Option Resume) (cb pie : Bool) (adjL : List Rat) (f : CFrag)
     (hf : (layoutBox c box idx y bs skip cb pie adjL).frag = some f) :
     fragLines f ++ restOut box (layoutBox c box idx y bs skip cb pie adjL).resume = linesFrom box skip :=
-  boxPost_lines _ _ _ _ _ (box_spec box (good_of box hN hW hS) c idx y bs skip cb pie adjL) hf
+  boxPost_lines _ _ _ _ _ (box_spec box (good_of box hN hW) c idx y bs skip cb pie adjL) hf
 
 /-- The columns of a container, left to right, then the rest: the special case the new code is about. -/
-theorem container_segment_partial (id : Nat) (st : PStyle) (cs : ColSpec) (flags : List Bool) (kids : List ColBox)
-    (hN : NoFixedHeightList kids) (hW : WellFormedList kids) (hF : NoSpanFlags flags) (hS : NoSpanList kids)
+theorem container_segment (id : Nat) (st : PStyle) (cs : ColSpec) (flags : List Bool) (kids : List ColBox)
+    (hN : NoFixedHeightList kids) (hW : WellFormedList kids)
     (c : CCtx) (idx : Nat) (y bs : Rat) (skip : Option Resume) (cb pie : Bool) (adjL : List Rat) (f : CFrag)
     (hf : (layoutBox c (.columns id st cs flags kids) idx y bs skip cb pie adjL).frag = some f) :
     fragLines f ++ restOut (.columns id st cs flags kids)
         (layoutBox c (.columns id st cs flags kids) idx y bs skip cb pie adjL).resume =
       linesFromKids kids (skipIdxOf skip) (subSkipOf skip) := by
-  have := segment_partial (.columns id st cs flags kids) (by simpa [PMC.NoFixedHeight] using hN)
-    (by simpa [PMC.WellFormed] using hW) (by simp only [NoSpan]; exact ⟨hF, hS⟩) c idx y bs skip cb pie adjL f hf
+  have := segment (.columns id st cs flags kids) (by simpa [PMC.NoFixedHeight] using hN)
+    (by simpa [PMC.WellFormed] using hW) c idx y bs skip cb pie adjL f hf
   simpa [PMC.linesFrom] using this
 
 /-- **Pages conserve content, extended grammar.** -/
-theorem pages_conserve_partial (d : CDoc) (hN : NoFixedHeight d.root) (hW : WellFormed d.root) (hS : NoSpan d.root)
+theorem pages_conserve (d : CDoc) (hN : NoFixedHeight d.root) (hW : WellFormed d.root)
     (fuel : Nat) (pages : List CPage) (h : paginateCol d fuel = .ok pages) :
     pagesLines pages = linesFrom d.root none := by
   unfold paginateCol at h
-  apply makeAllPages_lines d (good_of _ hN hW hS) fuel 0 none _ _ pages _ h
+  apply makeAllPages_lines d (good_of _ hN hW) fuel 0 none _ _ pages _ h
   intro _
   simp only [PMC.firstRight, requestedSide, isBlank]
   cases d.root.st.brkBefore <;> cases d.rootLtr <;> rfl
@@ -140,39 +138,14 @@ def exSt : PStyle :=
     brkBefore := .auto, brkAfter := .auto, brkInside := .auto, clone := false, page := "", orphans := 1, widows := 1,
     isRoot := false }
 
-/-- **Why spanning paragraphs are resumed correctly** although `columns_layout` stores the resume position of a
-spanning child one level too high: the resume position of a paragraph always is `{0: line k}` (its only child is line
-box 0), so `{index + 0: column_skip_stack[0]}` followed by `{0: skip_stack[index]}` on the next page gives the
-paragraph back exactly its own resume position.  (For a spanning block with block children the first key is the
-index of the child that was cut, and the round trip fails: finding `column-span-block-resume-mislevelled`.) -/
-theorem span_paragraph_resume_roundtrip (id n : Nat) (lineH : Rat) (st : PStyle) (hh : st.height = none)
-    (ho : 1 ≤ st.orphans) (c : CCtx) (idx : Nat) (y bs : Rat) (skip : Option Resume) (cb pie : Bool)
-    (adjL : List Rat) (f : CFrag) (ρ : Resume)
-    (hf : (PMC.layoutBox c (.para id n lineH st) idx y bs skip cb pie adjL).frag = some f)
-    (hr : (PMC.layoutBox c (.para id n lineH st) idx y bs skip cb pie adjL).resume = some ρ) :
-    ∃ k, ρ = .node 0 (some (.line k)) ∧
-      PMC.colsResume { (default : ColsState) with colSkip := some ρ, index := idx } =
-        some (.node idx (some (.line k))) ∧
-      PMC.firstItemSkip (some (.node idx (some (.line k)))) = some ρ := by
-  simp only [PMC.layoutBox] at hf hr
-  obtain ⟨hab, _, hres⟩ := PMC.finishPara_frag _ _ _ _ _ _ _ _ _ hh hf
-  rw [hres] at hr
-  obtain ⟨_, h2⟩ := PMC.linebox_spec _ _ _ _ _ _ _ _ _ _ _ ho hab
-  split at hr
-  · rename_i hstop
-    obtain ⟨m, _, _, _, hr'⟩ := h2 hstop
-    rw [hr'] at hr
-    simp only [Option.some.injEq] at hr
-    subst hr
-    exact ⟨_, rfl, by simp [PMC.colsResume, skipIdxOf, subSkipOf], by simp [PMC.firstItemSkip, subSkipOf]⟩
-  · cases hr
-
-/-- Non-vacuity: a 5-line paragraph on a 30px page is cut after 3 lines, resume position `{0: line 3}`. -/
-example : (match (PMC.layoutBox { pageBottom := 30, currentPage := 1, forcedBreak := false, inColumn := true, inf := false }
-    (.para 1 5 10 exSt) 2 0 0 none false true []).resume with
-    | some (.node 0 (some (.line k))) => k
-    | _ => 0) = 3 := by
-  decide +kernel
+/-- **A spanning child is resumed at its own level** (repair d7e3d63): `columns_layout` wraps the resume position
+`ρ` of the spanning child `i` (`column_skip_stack = {0: resume_at}`), stores `{i + 0: ρ}`, and on the next page hands
+`skip_stack[0]` of `{0: skip_stack[i]}` back to the child: exactly `ρ`, whatever its shape (before the repair this
+only held for `ρ = {0: …}`, i.e. for paragraphs). -/
+theorem span_resume_roundtrip (s : ColsState) (i : Nat) (ρ : Resume) :
+    PMC.colsResume { s with colSkip := some (.node 0 (some ρ)), index := i } = some (.node i (some ρ)) ∧
+    subSkipOf (PMC.firstItemSkip (some (.node i (some ρ)))) = some ρ := by
+  simp [PMC.colsResume, PMC.firstItemSkip, skipIdxOf, subSkipOf]
 
 def exDoc : CDoc :=
   { pageH := 40, rootLtr := true,
@@ -182,8 +155,8 @@ def exDoc : CDoc :=
          [.para 2 6 10 exSt, .para 3 2 10 { exSt with mt := 4 }],
        .para 5 2 10 exSt]] }
 
-example : NoFixedHeight exDoc.root ∧ WellFormed exDoc.root ∧ NoSpan exDoc.root := by
-  simp [exDoc, exSt, PMC.NoFixedHeight, PMC.NoFixedHeightList, PMC.WellFormed, PMC.WellFormedList, NoSpan, NoSpanList, NoSpanFlags]
+example : NoFixedHeight exDoc.root ∧ WellFormed exDoc.root := by
+  simp [exDoc, exSt, PMC.NoFixedHeight, PMC.NoFixedHeightList, PMC.WellFormed, PMC.WellFormedList]
 
 /-- Page 1: paragraph 1, the container 5px lower (its top margin), two lines of paragraph 2 (one per column); page 2: the container continues;
 page 3: the paragraph after the container. -/
@@ -195,6 +168,26 @@ example : (match paginateCol exDoc 20 with
 
 example : PMC.linesFrom exDoc.root none =
     [(1, 0), (1, 1), (2, 0), (2, 1), (2, 2), (2, 3), (2, 4), (2, 5), (3, 0), (3, 1), (5, 0), (5, 1)] := by
+  decide +kernel
+
+/-! ### non-vacuity with spanning children: a spanning block with two paragraphs cut by the page, then a group -/
+
+def exSpan : CDoc :=
+  { pageH := 40, rootLtr := true,
+    root := .block 9 { exSt with isRoot := true } [.block 8 exSt
+      [.columns 7 exSt { count := 2, balance := true, ltr := true, width := 192 } [false, true, false]
+        [.para 6 2 10 exSt,
+         .block 5 exSt [.para 1 2 10 exSt, .para 2 4 10 exSt],
+         .para 3 4 10 exSt]]] }
+
+example : NoFixedHeight exSpan.root ∧ WellFormed exSpan.root := by
+  simp [exSpan, exSt, PMC.NoFixedHeight, PMC.NoFixedHeightList, PMC.WellFormed, PMC.WellFormedList]
+
+/-- The group before the span, the spanning block cut inside its second paragraph, its rest, the group after. -/
+example : (match paginateCol exSpan 30 with
+    | .ok ps => ps.map (fun (p : CPage) => PMC.fragLines p.root)
+    | _ => []) =
+    [[(6, 0), (6, 1), (1, 0), (1, 1), (2, 0)], [(2, 1), (2, 2), (2, 3), (3, 0), (3, 1)], [(3, 2), (3, 3)]] := by
   decide +kernel
 
 end Wp.C01Col
